@@ -515,10 +515,38 @@ Proof. induction cols as [|x r IH]; [reflexivity | cbn [map flat_map escans]; ex
 
 (* ------------------------------------------------------------------ the window of a planner context *)
 Definition api_type (c : pctx) : Z := if Z.eqb (c_type c) 0 then 1%Z else c_type c.
+(* the window of the context itself: what a log query is judged against *)
 Definition win (c : pctx) : window :=
   {| w_from := c_from_ns c; w_to := c_to_ns c; w_lo_min := c_from_ns c; w_hi_max := c_to_ns c; w_type := api_type c |}.
+(* for plans that may read the 15-second roll-up table: bounds may be widened to 15 s storage boundaries
+   below, and the last started 15 s slot need not be read *)
+Definition fl15 (x : Z) : Z := (Z.quot x 15000000000 * 15000000000)%Z.
+Definition win15 (c : pctx) : window :=
+  {| w_from := c_from_ns c; w_to := fl15 (c_to_ns c); w_lo_min := fl15 (c_from_ns c); w_hi_max := c_to_ns c;
+     w_type := api_type c |}.
 Lemma api_type_nz c : api_type c <> 0%Z.
 Proof. unfold api_type. destruct (Z.eqb_spec (c_type c) 0); [discriminate | assumption]. Qed.
+
+(* what the proofs need of the window a context is judged against *)
+Record win_ok (m15 : bool) (c : pctx) (w : window) : Prop := {
+  wk_type : w_type w = api_type c;
+  wk_lo : (w_lo_min w <= c_from_ns c <= w_from w)%Z;
+  wk_hi : (w_to w <= c_to_ns c <= w_hi_max w + 1)%Z;
+  wk_m15 : m15 = true -> (w_lo_min w <= fl15 (c_from_ns c) <= w_from w /\ w_to w <= fl15 (c_to_ns c) <= w_hi_max w + 1)%Z
+}.
+Lemma win_ok_win c : win_ok false c (win c).
+Proof. constructor; cbn [win w_type w_from w_to w_lo_min w_hi_max]; try reflexivity; try lia; try discriminate. Qed.
+Lemma fl15_le x : (0 <= x -> 0 <= fl15 x <= x)%Z.
+Proof.
+  intros H. unfold fl15. pose proof (Z.quot_rem' x 15000000000) as E.
+  pose proof (Z.rem_nonneg x 15000000000 ltac:(lia) H) as R.
+  pose proof (Z.quot_pos x 15000000000 H ltac:(lia)) as Qp. lia.
+Qed.
+Lemma win_ok_win15 c : (0 <= c_from_ns c)%Z -> (0 <= c_to_ns c)%Z -> win_ok true c (win15 c).
+Proof.
+  intros Hf Ht. pose proof (fl15_le _ Hf). pose proof (fl15_le _ Ht).
+  constructor; cbn [win15 w_type w_from w_to w_lo_min w_hi_max]; try reflexivity; try lia; try (intros _; lia).
+Qed.
 
 Definition data_typed : tinfo := {| ti_class := CData; ti_typed := true |}.
 Definition index_typed : tinfo := {| ti_class := CIndex; ti_typed := true |}.
@@ -526,7 +554,8 @@ Record ctx_tables (info : string -> tinfo) (c : pctx) : Prop := {
   ct_samples : info (t_samples c) = data_typed;
   ct_gin : info (t_gin c) = index_typed;
   ct_ts : info (t_ts c) = index_typed;
-  ct_ts_dist : info (t_ts_dist c) = index_typed
+  ct_ts_dist : info (t_ts_dist c) = index_typed;
+  ct_m15 : info (t_m15 c) = data_typed
 }.
 
 (* verdicts on explicit bound lists *)
@@ -536,34 +565,39 @@ Proof.
   rewrite orb_true_r. reflexivity.
 Qed.
 
-Lemma bounded_data info c sc :
+Lemma bounded_data info c w sc lo hi :
+  w_type w = api_type c -> (w_lo_min w <= lo <= w_from w)%Z -> (w_to w <= hi <= w_hi_max w + 1)%Z ->
   info (sc_table sc) = data_typed ->
-  bounds sc = [TsLo (c_from_ns c); TsHi (c_to_ns c); Ty [api_type c; 0%Z]] ->
-  scan_bounded info (win c) sc.
+  bounds sc = [TsLo lo; TsHi hi; Ty [api_type c; 0%Z]] ->
+  scan_bounded info w sc.
 Proof.
-  intros Hi Hb. apply scan_bounded_b_iff. unfold scan_bounded_b, scan_failures. rewrite Hi, Hb.
+  intros Hty Hlo Hhi Hi Hb. apply scan_bounded_b_iff. unfold scan_bounded_b, scan_failures. rewrite Hi, Hb.
   cbn [ti_class ti_typed data_typed]. unfold ts_lower_failures, ts_upper_failures, type_failures.
-  cbn [ts_los ts_his tys flat_map app zmax_list zmin_list fold_left win w_from w_to w_lo_min w_hi_max w_type andb].
+  cbn [ts_los ts_his tys flat_map app zmax_list zmin_list fold_left andb]. rewrite Hty.
   pose proof (api_type_nz c) as Hnz. apply Z.eqb_neq in Hnz. rewrite Hnz.
   rewrite (types_ok (api_type c) (api_type_nz c)).
-  replace (c_from_ns c >? c_from_ns c)%Z with false by (symmetry; rewrite Z.gtb_ltb; apply Z.ltb_irrefl).
-  rewrite !Z.ltb_irrefl.
-  replace (c_to_ns c >? c_to_ns c + 1)%Z with false by (symmetry; rewrite Z.gtb_ltb; apply Z.ltb_ge; lia).
+  replace (lo >? w_from w)%Z with false by (symmetry; rewrite Z.gtb_ltb; apply Z.ltb_ge; lia).
+  replace (lo <? w_lo_min w)%Z with false by (symmetry; apply Z.ltb_ge; lia).
+  replace (hi <? w_to w)%Z with false by (symmetry; apply Z.ltb_ge; lia).
+  replace (hi >? w_hi_max w + 1)%Z with false by (symmetry; rewrite Z.gtb_ltb; apply Z.ltb_ge; lia).
   reflexivity.
 Qed.
 
-Lemma bounded_index info c sc :
+Lemma bounded_index info c w sc :
+  w_type w = api_type c -> (c_from_ns c <= w_from w)%Z ->
   info (sc_table sc) = index_typed ->
   bounds sc = [DLo (from_day (c_from_ns c)); Ty [api_type c; 0%Z]] ->
-  scan_bounded info (win c) sc.
+  scan_bounded info w sc.
 Proof.
-  intros Hi Hb. apply scan_bounded_b_iff. unfold scan_bounded_b, scan_failures. rewrite Hi, Hb.
+  intros Hty Hlo Hi Hb. apply scan_bounded_b_iff. unfold scan_bounded_b, scan_failures. rewrite Hi, Hb.
   cbn [ti_class ti_typed index_typed]. unfold date_failures, ts_lower_failures, ts_upper_failures, type_failures.
-  cbn [d_los d_his ts_los ts_his tys flat_map app zmax_list zmin_list fold_left win w_from w_to w_lo_min w_hi_max w_type andb].
+  cbn [d_los d_his ts_los ts_his tys flat_map app zmax_list zmin_list fold_left andb]. rewrite Hty.
   pose proof (api_type_nz c) as Hnz. apply Z.eqb_neq in Hnz. rewrite Hnz.
   rewrite (types_ok (api_type c) (api_type_nz c)).
-  replace (from_day (c_from_ns c) >? day_of_ns (c_from_ns c))%Z with false; [reflexivity|].
-  symmetry. rewrite Z.gtb_ltb. apply Z.ltb_ge. apply from_day_close.
+  replace (from_day (c_from_ns c) >? day_of_ns (w_from w))%Z with false; [reflexivity|].
+  symmetry. rewrite Z.gtb_ltb. apply Z.ltb_ge.
+  transitivity (day_of_ns (c_from_ns c)); [apply from_day_close|].
+  unfold day_of_ns, ns_per_day. apply Z.div_le_mono; lia.
 Qed.
 
 
@@ -576,8 +610,11 @@ Section SKEL.
   Variable info : string -> tinfo.
   Variable c : pctx.
   Variable allow : bool.
+  Variable m15 : bool.
+  Variable W : window.
   Hypothesis Htab : ctx_tables info c.
-  Notation Q := (Q info (win c) allow).
+  Hypothesis Hwin : win_ok m15 c W.
+  Notation Q := (Q info W allow).
   Notation good := (good Q).
 
   Lemma good_base s : s_withs s = [] -> s_joins s = [] -> s_unions s = [] ->
@@ -605,7 +642,7 @@ Section SKEL.
       + constructor; [|constructor; [|constructor; [apply types_conj_free | constructor]]].
         * intros a b [Ht Ha]. subst d1. unfold Ge, classify, col_is, qualifier_ok. cbn. rewrite Ha, Ht. reflexivity.
         * intros a b [Ht Ha]. subst d2. unfold Lt, classify, col_is, qualifier_ok. cbn. rewrite Ha, Ht. reflexivity.
-      + left. apply bounded_data; [apply Htab|].
+      + left. apply (bounded_data info c W _ (c_from_ns c) (c_to_ns c)); [apply Hwin | apply Hwin | apply Hwin | apply Htab|].
         unfold bounds. cbn [sc_conj flat_map]. rewrite types_bounds. subst d1 d2. reflexivity.
     - apply exprs_parts. constructor; fields_all; cbn [ogood]; repeat constructor.
   Qed.
@@ -619,7 +656,7 @@ Section SKEL.
       cbn [app]. constructor; [|constructor]. split.
       + constructor; [|constructor; [apply types_conj_free | constructor]].
         intros a b [Ht Ha]. unfold Ge, classify, col_is, qualifier_ok. cbn. rewrite Ha, Ht. reflexivity.
-      + left. apply bounded_index; [apply Htab|].
+      + left. apply (bounded_index info c W); [apply Hwin | apply Hwin | apply Htab|].
         unfold bounds. cbn [sc_conj flat_map]. rewrite types_bounds. reflexivity.
     - apply exprs_parts. constructor; fields_all; cbn [ogood]; repeat constructor.
   Qed.
@@ -634,7 +671,7 @@ Section SKEL.
       + constructor; [|constructor; [apply types_conj_free | constructor; [|constructor]]].
         * apply tsn_free_closed. intros a b. reflexivity.
         * apply neutral_tsn_free. apply sel_clauses_neutral.
-      + left. apply bounded_index; [apply Htab|].
+      + left. apply (bounded_index info c W); [apply Hwin | apply Hwin | apply Htab|].
         unfold bounds. cbn [sc_conj flat_map]. rewrite types_bounds.
         rewrite (sel_clauses_neutral OOr ms). reflexivity.
     - apply exprs_parts. constructor; fields_all; cbn [ogood]; repeat constructor.
@@ -644,33 +681,48 @@ Section SKEL.
 End SKEL.
 
 (* ------------------------------------------------------------------ the planner objects of a log query *)
-Inductive logp (allow : bool) : planner -> Prop :=
- | lp_sel ms : logp allow (PStreamSelect ms)
- | lp_slf f fp : allow = true -> logp allow fp -> logp allow (PSimpleLabelFilter f fp)
- | lp_fpf fp main : logp allow fp -> logp allow main -> logp allow (PFingerprintFilter fp main)
- | lp_main : logp allow PMainInit
- | lp_ts : logp allow PTimeSeriesInit
- | lp_lf op v rl main : logp allow main -> logp allow (PLineFilterP op v rl main)
- | lp_lbl f main : logp allow main -> logp allow (PLabelFilterP f main)
- | lp_parser fn ps main : logp allow main -> logp allow (PParserP fn ps main)
- | lp_drop ps main : logp allow main -> logp allow (PDropP ps main)
- | lp_unwrap l main : logp allow main -> logp allow (PUnwrapP l main)
- | lp_join main fp ts lc : logp allow main -> logp allow fp -> logp allow ts -> logp allow (PLabelsJoin main fp ts lc)
- | lp_renew main ul : logp allow main -> logp allow (PMainRenew main ul)
- | lp_ob cols main : logp allow main -> logp allow (PMainOrderBy cols main)
- | lp_limit main : logp allow main -> logp allow (PMainLimit main)
- | lp_fin main m f : logp allow main -> logp allow (PMainFinalizer main m f).
+(* allow: SimpleLabelFilterPlanner may occur; m15: the 15-second roll-up shortcut may occur *)
+Inductive logp (allow m15 : bool) : planner -> Prop :=
+ | lp_sel ms : logp allow m15 (PStreamSelect ms)
+ | lp_slf f fp : allow = true -> logp allow m15 fp -> logp allow m15 (PSimpleLabelFilter f fp)
+ | lp_fpf fp main : logp allow m15 fp -> logp allow m15 main -> logp allow m15 (PFingerprintFilter fp main)
+ | lp_main : logp allow m15 PMainInit
+ | lp_ts : logp allow m15 PTimeSeriesInit
+ | lp_lf op v rl main : logp allow m15 main -> logp allow m15 (PLineFilterP op v rl main)
+ | lp_lbl f main : logp allow m15 main -> logp allow m15 (PLabelFilterP f main)
+ | lp_parser fn ps main : logp allow m15 main -> logp allow m15 (PParserP fn ps main)
+ | lp_drop ps main : logp allow m15 main -> logp allow m15 (PDropP ps main)
+ | lp_unwrap l main : logp allow m15 main -> logp allow m15 (PUnwrapP l main)
+ | lp_join main fp ts lc : logp allow m15 main -> logp allow m15 fp -> logp allow m15 ts -> logp allow m15 (PLabelsJoin main fp ts lc)
+ | lp_renew main ul : logp allow m15 main -> logp allow m15 (PMainRenew main ul)
+ | lp_ob cols main : logp allow m15 main -> logp allow m15 (PMainOrderBy cols main)
+ | lp_limit main : logp allow m15 main -> logp allow m15 (PMainLimit main)
+ | lp_fin main m f : logp allow m15 main -> logp allow m15 (PMainFinalizer main m f)
+ (* metric side *)
+ | lp_lra f dur wl main : logp allow m15 main -> logp allow m15 (PLraP f dur wl main)
+ | lp_uwfn f dur main : logp allow m15 main -> logp allow m15 (PUnwrapFnP f dur main)
+ | lp_bw labels by_ use_ts main : logp allow m15 main -> logp allow m15 (PByWithoutP labels by_ use_ts main)
+ | lp_agg f wl main : logp allow m15 main -> logp allow m15 (PAggOpP f wl main)
+ | lp_cmp fn v main : logp allow m15 main -> logp allow m15 (PComparisonP fn v main)
+ | lp_topk len top main : logp allow m15 main -> logp allow m15 (PTopKP len top main)
+ | lp_quant param dur main : logp allow m15 main -> logp allow m15 (PQuantileP param dur main)
+ | lp_stepfix dur main : logp allow m15 main -> logp allow m15 (PStepFixP dur main)
+ | lp_m15 f dur : m15 = true -> logp allow m15 (PMetrics15 f dur).
 
 Section PROC.
   Variable info : string -> tinfo.
   Variable c : pctx.
   Variable allow : bool.
+  Variable m15 : bool.
+  Variable W : window.
   Hypothesis Htab : ctx_tables info c.
-  Notation Q := (Q info (win c) allow).
+  Hypothesis Hwin : win_ok m15 c W.
+  Notation Q := (Q info W allow).
   Notation good := (good Q).
   Notation egood := (egood Q).
 
-  Definition inv (st : pst) : Prop := forall w, fp_cache st = Some w -> good (snd w).
+  Definition inv (st : pst) : Prop :=
+    (forall x, fp_cache st = Some x -> good (snd x)) /\ (forall x, labels_cache st = Some x -> good (snd x)).
   Definition proc_ok (p : planner) : Prop :=
     forall st q st' p', inv st -> process p c st = Some (q, st', p') -> good q /\ inv st'.
 
@@ -690,11 +742,13 @@ Section PROC.
     destruct (process mainp c st) as [[[main st1] mp]|] eqn:E1; cbn [bind]; [|discriminate].
     destruct (Hm _ _ _ _ Hinv E1) as [Gm I1].
     destruct (fp_cache st1) as [w|] eqn:Ec.
-    - intros [= <- <- <- <-]. exists main, w. repeat split; try assumption. apply I1, Ec.
+    - intros [= <- <- <- <-]. exists main, w. repeat split; try assumption; [apply (proj1 I1), Ec | apply I1 | apply I1].
     - destruct (process withp c st1) as [[[wreq st2] wp]|] eqn:E2; cbn [bind]; [|discriminate].
       destruct (Hw _ _ _ _ I1 E2) as [Gw I2].
-      intros [= <- <- <- <-]. exists main, ("fp_sel", wreq). repeat split; try assumption.
-      intros w0 H0. cbn [set_fp_cache fp_cache] in H0. injection H0 as <-. exact Gw.
+      intros [= <- <- <- <-]. exists main, ("fp_sel", wreq). split; [exact Gm|]. split; [exact Gw|]. split; [reflexivity|].
+      split.
+      + intros w0 H0. cbn [set_fp_cache fp_cache] in H0. injection H0 as <-. exact Gw.
+      + intros w0 H0. cbn [set_fp_cache labels_cache] in H0. apply (proj2 I2), H0.
   Qed.
 
   Lemma in_fp_cl_neutral x r : neutral (In (Id x) r) -> cl_neutral [In (Id x) r].
@@ -719,17 +773,40 @@ Section PROC.
     destruct (String.eqb alias n); [|exact IH]. intros [= <-]. exact Hc.
   Qed.
   Lemma inv_clear st : inv (clear_caches st).
-  Proof. intros w0 H0. discriminate H0. Qed.
+  Proof. split; intros w0 H0; discriminate H0. Qed.
+  Lemma forall_egood_nil l : flat_map escans l = [] -> Forall egood l.
+  Proof.
+    induction l as [|x r IH]; cbn [flat_map]; intros H; constructor.
+    - apply egood_nil. destruct (escans x); [reflexivity | discriminate H].
+    - apply IH. destruct (escans x); [exact H | discriminate H].
+  Qed.
+  Lemma bw_filter_escans col labels by_ : escans (bw_filter col labels by_) = escans col.
+  Proof. unfold bw_filter. cbn [escans flat_map app]. rewrite strvs_noselect. cbn [app]. rewrite app_nil_r. reflexivity. Qed.
+  Lemma rename_string_egood cols : Forall egood cols -> Forall egood (rename_string cols).
+  Proof.
+    intros H. unfold rename_string. induction H as [|x r Hx Hr IH]; cbn [map]; constructor; [|exact IH].
+    destruct x; cbn [alias_of]; try exact Hx. destruct (String.eqb alias "string"); exact Hx.
+  Qed.
+  Lemma good_set_groupby gb s : good s -> Forall egood gb -> good (set_groupby gb s).
+  Proof.
+    intros H Hc. apply good_parts in H. destruct H as [A B C D E]. apply good_parts.
+    constructor; fields_all; try assumption;
+      try (apply (own_same_key info W allow s); [reflexivity | reflexivity | reflexivity | exact B]).
+    apply exprs_parts in D. destruct D. apply exprs_parts. constructor; fields_all; assumption.
+  Qed.
 
-  Theorem process_good p : logp allow p -> proc_ok p.
+  Theorem process_good p : logp allow m15 p -> proc_ok p.
   Proof.
     induction 1 as [ms | f fp Hal Hfp IHfp | fp main Hfp IHfp Hmain IHmain | | | op v rl main Hmain IHmain
                    | f main Hmain IHmain | fn ps main Hmain IHmain | ps main Hmain IHmain | lbl main Hmain IHmain
                    | main fp ts lc Hmain IHmain Hfp IHfp Hts IHts | main ul Hmain IHmain | cols main Hmain IHmain
-                   | main Hmain IHmain | main m fin Hmain IHmain];
+                   | main Hmain IHmain | main m fin Hmain IHmain
+                   | f dur wl main Hmain IHmain | f dur main Hmain IHmain | labels by_ use_ts main Hmain IHmain
+                   | f wl main Hmain IHmain | fn v main Hmain IHmain | len top main Hmain IHmain
+                   | param dur main Hmain IHmain | dur main Hmain IHmain | f dur Hm15];
       intros st q st' p' Hinv; cbn [process].
     - (* PStreamSelect *)
-      intros [= <- <- <-]. split; [apply stream_select_good, Htab | exact Hinv].
+      intros [= <- <- <-]. split; [apply (stream_select_good info c allow m15 W Htab Hwin) | exact Hinv].
     - (* PSimpleLabelFilter *)
       destruct (process fp c st) as [[[main st1] fp']|] eqn:E1; cbn [bind]; [|discriminate].
       destruct (IHfp _ _ _ _ Hinv E1) as [Gm I1].
@@ -760,9 +837,9 @@ Section PROC.
       apply good_and_where; [| apply in_fp_cl_neutral, neutral_in_fp1 | constructor; [apply egood_in_wref, Gw | constructor]].
       apply good_with; [exact Gm | constructor; [exact Gw | constructor]].
     - (* PMainInit *)
-      intros [= <- <- <-]. split; [apply main_init_good, Htab | exact Hinv].
+      intros [= <- <- <-]. split; [apply (main_init_good info c allow m15 W Htab Hwin) | exact Hinv].
     - (* PTimeSeriesInit *)
-      intros [= <- <- <-]. split; [apply ts_init_good, Htab | exact Hinv].
+      intros [= <- <- <-]. split; [apply (ts_init_good info c allow m15 W Htab Hwin) | exact Hinv].
     - (* PLineFilterP *)
       destruct (process main c st) as [[[req st1] main']|] eqn:E1; cbn [bind]; [|discriminate].
       destruct (IHmain _ _ _ _ Hinv E1) as [Gm I1].
@@ -824,7 +901,7 @@ Section PROC.
       assert (Gts : good (and_prewhere [In (Id "time_series.fingerprint") [WRef (fst w) (snd w)]] (with_ [w] tq))).
       { apply good_and_prewhere; [| apply in_fp_cl_neutral, neutral_in_fp2 | constructor; [apply egood_in_wref, Gw | constructor]].
         apply good_with; [exact Gt | constructor; [exact Gw | constructor]]. }
-      split; [|destruct lc; [intros w0 H0; apply I2; exact H0 | exact I2]].
+      split; [|destruct lc; [split; [apply I2 | intros w0 H0; cbn [set_labels_cache labels_cache] in H0; injection H0 as <-; exact Gts] | exact I2]].
       set (tsr := and_prewhere _ _) in *.
       apply good_parts. unfold with_, add_withs. constructor; fields_all.
       + apply hoist_good; [constructor; [exact Gm | constructor; [exact Gts | constructor]] | constructor].
@@ -862,6 +939,132 @@ Section PROC.
         apply good_from_ref; [reflexivity | exact Gm | exact Hc | constructor; [exact Gm | constructor]]. }
       destruct m; [|destruct fin]; intros [= <- <- <-]; (split; [|exact I1]); apply Hb;
         repeat constructor; apply egood_nil; reflexivity.
+    - (* PLraP *)
+      destruct (process main c st) as [[[m st1] main']|] eqn:E1; cbn [bind]; [|discriminate].
+      destruct (IHmain _ _ _ _ Hinv E1) as [Gm I1].
+      destruct (lra_val_of f dur) as [v|]; cbn [bind]; [|discriminate].
+      intros [= <- <- <-]. split; [|exact I1].
+      assert (Gm1 : good (set_cols (rename_string (s_cols m)) m)).
+      { apply good_set_cols; [exact Gm | apply rename_string_egood, good_cols, Gm]. }
+      apply good_set_groupby; [|apply forall_egood_nil; reflexivity].
+      apply good_from_ref; [reflexivity | exact Gm1 | | constructor; [exact Gm1 | constructor]].
+      apply forall_egood_nil. destruct wl, v; reflexivity.
+    - (* PUnwrapFnP *)
+      destruct (process main c st) as [[[m st1] main']|] eqn:E1; cbn [bind]; [|discriminate].
+      destruct (IHmain _ _ _ _ Hinv E1) as [Gm I1].
+      destruct (uw_val_of f dur) as [v|]; cbn [bind]; [|discriminate].
+      intros [= <- <- <-]. split; [|exact I1].
+      apply good_set_groupby; [|apply forall_egood_nil; reflexivity].
+      apply good_from_ref; [reflexivity | exact Gm | | constructor; [exact Gm | constructor]].
+      apply forall_egood_nil. destruct v; reflexivity.
+    - (* PByWithoutP *)
+      destruct (process main c st) as [[[m st1] main']|] eqn:E1; cbn [bind]; [|discriminate].
+      destruct (IHmain _ _ _ _ Hinv E1) as [Gm I1].
+      destruct (negb use_ts).
+      + destruct (next_id st1) as [i st2] eqn:En.
+        intros [= <- <- <-]. split; [|unfold next_id in En; injection En as _ <-; exact I1].
+        apply good_from_ref; [reflexivity | exact Gm | | constructor; [exact Gm | constructor]].
+        apply forall_egood_nil. cbn [flat_map escans SimpleCol]. rewrite bw_filter_escans. reflexivity.
+      + match goal with |- (bind ?X _ = _ -> _) => destruct X as [lsel|] eqn:El end; cbn [bind]; [|discriminate].
+        assert (Gl : good lsel).
+        { destruct (labels_cache st1) as [lw|] eqn:Elc.
+          - injection El as <-.
+            apply (good_from_ref info W allow (Col (WRef (fst lw) (snd lw)) "a") _ []); [reflexivity | apply (proj2 I1), Elc | | constructor].
+            apply forall_egood_nil. cbn [flat_map escans SimpleCol]. rewrite bw_filter_escans. reflexivity.
+          - destruct (fp_cache st1) as [fpw|] eqn:Efp; [|discriminate El]. injection El as <-.
+            assert (Gfrom : good (labels_from_scratch c fpw)).
+            { unfold labels_from_scratch. apply good_and_prewhere; [apply (ts_init_good info c allow m15 W Htab Hwin)
+                | apply in_fp_cl_neutral, neutral_in_fp2 | constructor; [apply egood_in_wref, (proj1 I1), Efp | constructor]]. }
+            apply good_set_cols; [exact Gfrom|].
+            apply forall_egood_nil. cbn [flat_map escans SimpleCol app]. rewrite bw_filter_escans. reflexivity. }
+        destruct (next_id st1) as [i1 st2] eqn:En1.
+        destruct (next_id (set_labels_cache (("labels_" ++ string_of_N i1)%string, lsel) st2)) as [i2 st4] eqn:En2.
+        intros [= <- <- <-]. split.
+        * set (la := ("labels_" ++ string_of_N i1)%string). set (ma := ("pre_without_" ++ string_of_N i2)%string).
+          apply good_parts. unfold with_, add_withs. constructor; fields_all.
+          -- apply hoist_good; [constructor; [exact Gm | constructor; [exact Gl | constructor]] | constructor].
+          -- constructor.
+          -- constructor; [|constructor]. unfold join_scan, join_type. destruct (c_cluster c); cbn; constructor.
+          -- apply exprs_parts. constructor; fields_all; cbn [ogood]; repeat constructor; try (apply egood_nil; reflexivity).
+             ++ exact Gm.
+             ++ exact Gl.
+          -- constructor.
+        * unfold next_id in En1, En2. injection En1 as _ <-. injection En2 as _ <-.
+          split; [apply I1|]. intros x Hx. cbn [set_labels_cache labels_cache] in Hx. injection Hx as <-. exact Gl.
+    - (* PAggOpP *)
+      destruct (process main c st) as [[[m st1] main']|] eqn:E1; cbn [bind]; [|discriminate].
+      destruct (IHmain _ _ _ _ Hinv E1) as [Gm I1].
+      intros [= <- <- <-]. split; [|exact I1].
+      apply good_set_groupby; [|apply forall_egood_nil; reflexivity].
+      apply good_from_ref; [reflexivity | exact Gm | | constructor; [exact Gm | constructor]].
+      apply forall_egood_nil. destruct wl, f; reflexivity.
+    - (* PComparisonP *)
+      destruct (process main c st) as [[[m st1] main']|] eqn:E1; cbn [bind]; [|discriminate].
+      destruct (IHmain _ _ _ _ Hinv E1) as [Gm I1].
+      intros [= <- <- <-]. split; [|exact I1].
+      apply good_and_having; [exact Gm|]. apply forall_egood_nil. destruct fn; reflexivity.
+    - (* PTopKP *)
+      destruct (process main c st) as [[[m st1] main']|] eqn:E1; cbn [bind]; [|discriminate].
+      destruct (IHmain _ _ _ _ Hinv E1) as [Gm I1].
+      intros [= <- <- <-]. split; [|exact I1].
+      set (hl := has_column (s_cols m) "labels").
+      assert (G1 : good (set_groupby [Id "timestamp_ns"]
+               (set_from (WRef "par_a" m)
+                (set_cols [SimpleCol "par_a.timestamp_ns" "timestamp_ns"; Col (topk_slice len top hl) "slice"]
+                 (with_ [("par_a"%string, m)] empty_select))))).
+      { apply good_set_groupby; [|apply forall_egood_nil; reflexivity].
+        apply good_from_ref; [reflexivity | exact Gm | | constructor; [exact Gm | constructor]].
+        apply forall_egood_nil. destruct top, hl; reflexivity. }
+      set (q1 := set_groupby _ _) in *.
+      apply good_parts. unfold with_, add_withs. constructor; fields_all.
+      + apply hoist_good; [constructor; [exact G1 | constructor] | constructor].
+      + constructor.
+      + constructor; [|constructor]. cbn. constructor.
+      + apply exprs_parts. constructor; fields_all; cbn [ogood].
+        * apply forall_egood_nil. destruct hl; reflexivity.
+        * exact G1.
+        * constructor; [|constructor]. split; [apply egood_nil; reflexivity | exact I].
+        * exact I.
+        * exact I.
+        * constructor.
+        * exact I.
+        * constructor.
+        * exact I.
+        * exact I.
+      + constructor.
+    - (* PQuantileP *)
+      destruct (process main c st) as [[[m st1] main']|] eqn:E1; cbn [bind]; [|discriminate].
+      destruct (IHmain _ _ _ _ Hinv E1) as [Gm I1].
+      intros [= <- <- <-]. split; [|exact I1].
+      apply good_set_groupby; [|apply forall_egood_nil; reflexivity].
+      apply good_from_ref; [reflexivity | exact Gm | | constructor; [exact Gm | constructor]].
+      apply forall_egood_nil. destruct (has_column (s_cols m) "labels"); reflexivity.
+    - (* PStepFixP *)
+      destruct (process main c st) as [[[m st1] main']|] eqn:E1; cbn [bind]; [|discriminate].
+      destruct (IHmain _ _ _ _ Hinv E1) as [Gm I1].
+      destruct (Z.leb (c_step_ns c) dur); intros [= <- <- <-]; (split; [|exact I1]); [exact Gm|].
+      apply good_set_groupby; [|apply forall_egood_nil; reflexivity].
+      apply good_from_ref; [reflexivity | exact Gm | | constructor; [exact Gm | constructor]].
+      apply forall_egood_nil. destruct (has_column (s_cols m) "labels"); reflexivity.
+    - (* PMetrics15: the 15-second roll-up table, bounds floored to 15 s *)
+      destruct (m15_val_of f dur) as [v|]; cbn [bind]; [|discriminate].
+      intros [= <- <- <-]. split; [|exact Hinv].
+      apply good_set_groupby; [|apply forall_egood_nil; reflexivity].
+      unfold and_where, SimpleCol. fields_all.
+      apply good_base; try reflexivity.
+      + fields_all. unfold And. rewrite conjs_and.
+        set (d1 := Ge (Id "samples.timestamp_ns") (IntV _)).
+        set (d2 := Lt (Id "samples.timestamp_ns") (IntV _)).
+        cbn [flat_map]. rewrite !conjs_other by (subst d1 d2; unfold get_types, Ge, Lt; intros l H; discriminate).
+        cbn [app]. constructor; [|constructor]. split.
+        * constructor; [|constructor; [|constructor; [apply types_conj_free | constructor]]].
+          -- intros a b [Ht Ha]. subst d1. unfold Ge, classify, col_is, qualifier_ok. cbn. rewrite Ha, Ht. reflexivity.
+          -- intros a b [Ht Ha]. subst d2. unfold Lt, classify, col_is, qualifier_ok. cbn. rewrite Ha, Ht. reflexivity.
+        * left. destruct (wk_m15 _ _ _ Hwin Hm15) as [Hlo Hhi].
+          apply (bounded_data info c W _ (fl15 (c_from_ns c)) (fl15 (c_to_ns c))); [apply Hwin | exact Hlo | exact Hhi | apply Htab|].
+          unfold bounds. cbn [sc_conj flat_map]. rewrite (types_bounds c). subst d1 d2. reflexivity.
+      + apply exprs_parts. constructor; fields_all; cbn [ogood]; try exact I;
+          try (apply forall_egood_nil; destruct v; reflexivity); try (apply egood_nil; reflexivity); constructor.
   Qed.
 End PROC.
 
@@ -873,15 +1076,16 @@ Definition no_slf (sel : strsel) : bool :=
 
 Section PLAN.
   Variable allow : bool.
+  Variable m15 : bool.
 
   Lemma plan_ts_logp ms ppl simple :
     allow = true \/ forallb (fun sb => negb (slf_pair sb)) (combine ppl simple) = true ->
-    logp allow (plan_ts ms ppl simple).
+    logp allow m15 (plan_ts ms ppl simple).
   Proof.
     unfold plan_ts. generalize (combine ppl simple) as l. intros l.
-    assert (H : forall acc, logp allow acc ->
+    assert (H : forall acc, logp allow m15 acc ->
               allow = true \/ forallb (fun sb => negb (slf_pair sb)) l = true ->
-              logp allow (fold_left (fun fp sb => match fst sb, snd sb with
+              logp allow m15 (fold_left (fun fp sb => match fst sb, snd sb with
                                                  | PLabelFilter f, true => PSimpleLabelFilter f fp
                                                  | _, _ => fp end) l acc)).
     { induction l as [|[s b] r IH]; intros acc Hacc Hg; [exact Hacc|].
@@ -894,21 +1098,21 @@ Section PLAN.
     intros Hg. apply H; [constructor | exact Hg].
   Qed.
 
-  Lemma plan_stage_logp s b cur p : logp allow cur -> plan_stage s b cur = Some p -> logp allow p.
+  Lemma plan_stage_logp s b cur p : logp allow m15 cur -> plan_stage s b cur = Some p -> logp allow m15 p.
   Proof.
     intros Hc. destruct s; cbn [plan_stage]; try discriminate; intros [= <-];
       try (destruct b); try assumption; constructor; assumption.
   Qed.
 
   Lemma plan_spl_logp ppl : forall simple renew i lji fp cur p,
-    logp allow fp -> logp allow cur -> plan_spl ppl simple renew i lji fp cur = Some p -> logp allow p.
+    logp allow m15 fp -> logp allow m15 cur -> plan_spl ppl simple renew i lji fp cur = Some p -> logp allow m15 p.
   Proof.
     induction ppl as [|s r IH]; intros simple renew i lji fp cur p Hfp Hcur; cbn [plan_spl]; [intros [= <-]; exact Hcur|].
     destruct simple as [|b bs]; [intros [= <-]; exact Hcur|].
     destruct renew as [|rn rns]; [intros [= <-]; exact Hcur|].
     set (cur1 := if match lji with Some j => Nat.eqb i j | None => false end
                  then PLabelsJoin (PMainOrderBy ["timestamp_ns"%string] cur) fp PTimeSeriesInit true else cur).
-    assert (H1 : logp allow cur1).
+    assert (H1 : logp allow m15 cur1).
     { subst cur1. destruct (match lji with Some j => Nat.eqb i j | None => false end); [|exact Hcur].
       constructor; [constructor; exact Hcur | exact Hfp | constructor]. }
     destruct (plan_stage s b cur1) as [cur2|] eqn:E; [|discriminate].
@@ -917,7 +1121,7 @@ Section PLAN.
   Qed.
 
   Lemma plan_log_logp sel fin p :
-    allow = true \/ no_slf sel = true -> plan_log sel fin = Some p -> logp allow p.
+    allow = true \/ no_slf sel = true -> plan_log sel fin = Some p -> logp allow m15 p.
   Proof.
     intros Hg. unfold plan_log.
     set (ppl := sel_pipeline sel). set (simple := simple_ops ppl).
@@ -925,38 +1129,141 @@ Section PLAN.
     set (fp := plan_ts (sel_matchers sel) ppl simple) in *.
     destruct (plan_spl ppl simple (renew_after ppl) 0 (labels_join_idx ppl simple 0) fp (PFingerprintFilter fp PMainInit)) as [spl|] eqn:E;
       [|discriminate].
-    assert (Hspl : logp allow spl).
+    assert (Hspl : logp allow m15 spl).
     { apply (plan_spl_logp _ _ _ _ _ _ _ _ Hfp) in E; [exact E|]. constructor; [exact Hfp | constructor]. }
     intros [= <-]. constructor.
-    assert (H2 : logp allow (if fin then PMainLimit (PMainOrderBy ["timestamp_ns"%string] spl) else PMainOrderBy ["timestamp_ns"%string] spl)).
+    assert (H2 : logp allow m15 (if fin then PMainLimit (PMainOrderBy ["timestamp_ns"%string] spl) else PMainOrderBy ["timestamp_ns"%string] spl)).
     { destruct fin; repeat constructor; exact Hspl. }
     destruct (labels_join_idx ppl simple 0); [exact H2|].
     constructor; [exact H2 | exact Hfp | constructor].
   Qed.
+
+  (* ---- planner.plan() for metric scripts *)
+  Lemma plan_bw_logp pre suf use_ts cur : logp allow m15 cur -> logp allow m15 (plan_bw pre suf use_ts cur).
+  Proof. intros H. unfold plan_bw. destruct suf as [b|]; [|destruct pre as [b|]]; try exact H; constructor; exact H. Qed.
+  Lemma plan_cmp_logp cmp cur : logp allow m15 cur -> logp allow m15 (plan_cmp cmp cur).
+  Proof. intros H. unfold plan_cmp. destruct cmp; [constructor|]; exact H. Qed.
+  Lemma plan_topk_logp t cur p : logp allow m15 cur -> plan_topk t cur = Some p -> logp allow m15 p.
+  Proof. intros H. unfold plan_topk. destruct (Z.ltb (tk_len t) 0); [discriminate|]. intros [= <-]. constructor. exact H. Qed.
+  Lemma apply_mfn_logp a b f cur p : logp allow m15 cur -> apply_mfn a b f cur = Some p -> logp allow m15 p.
+  Proof.
+    intros H. destruct f; cbn [apply_mfn]; try (intros [= <-]; constructor; try apply plan_bw_logp; exact H).
+    apply plan_topk_logp, H.
+  Qed.
+  Lemma apply_mfns_logp a b fs : forall cur p, logp allow m15 cur -> apply_mfns a b fs cur = Some p -> logp allow m15 p.
+  Proof.
+    induction fs as [|f r IH]; intros cur p H; cbn [apply_mfns]; [intros [= <-]; exact H|].
+    destruct (apply_mfn a b f cur) as [c1|] eqn:E; [|discriminate]. apply IH. apply (apply_mfn_logp _ _ _ _ _ H E).
+  Qed.
+  Lemma m15_lra_logp fp l : m15 = true -> logp allow m15 fp -> logp allow m15 (m15_lra fp l).
+  Proof. intros Hm H. unfold m15_lra. apply plan_cmp_logp. constructor; [exact H | constructor; exact Hm]. Qed.
+  Lemma m15_agg_logp fp a : m15 = true -> logp allow m15 fp -> logp allow m15 (fst (m15_agg fp a)).
+  Proof.
+    intros Hm H. unfold m15_agg. cbn [fst]. apply plan_cmp_logp. constructor. apply plan_bw_logp. apply m15_lra_logp; assumption.
+  Qed.
+  Lemma plan_m15_logp fp s p wl : m15 = true -> logp allow m15 fp -> plan_m15 fp s = Some (p, wl) -> logp allow m15 p.
+  Proof.
+    intros Hm H. destruct s; cbn [plan_m15]; try discriminate.
+    - intros [= <- _]. apply m15_lra_logp; assumption.
+    - intros E. apply (f_equal (option_map fst)) in E. cbn [option_map fst] in E. injection E as <-.
+      apply m15_agg_logp; assumption.
+    - destruct (tk_arg t) as [l|a|q] eqn:Et; try discriminate.
+      + destruct (plan_topk t (m15_lra fp l)) as [p0|] eqn:Ep; [|discriminate]. intros [= <- _].
+        apply plan_cmp_logp. apply (plan_topk_logp _ _ _ (m15_lra_logp fp l Hm H) Ep).
+      + destruct (m15_agg fp a) as [inner wl0] eqn:Ea.
+        destruct (plan_topk t inner) as [p0|] eqn:Ep; [|discriminate]. intros [= <- _].
+        apply plan_cmp_logp. apply (fun Hi => plan_topk_logp _ _ _ Hi Ep).
+        pose proof (m15_agg_logp fp a Hm H) as Ha. rewrite Ea in Ha. exact Ha.
+  Qed.
+
+  Lemma plan_metric_logp s fin p :
+    (analyze_m15 s = true -> m15 = true) ->
+    allow = true \/ no_slf (stream_selector s) = true -> plan_metric s fin = Some p -> logp allow m15 p.
+  Proof.
+    intros Hm Hg. unfold plan_metric.
+    set (sel := stream_selector s). set (ppl := sel_pipeline sel). set (simple := simple_ops ppl).
+    pose proof (plan_ts_logp (sel_matchers sel) ppl simple Hg) as Hfp.
+    set (fp := plan_ts (sel_matchers sel) ppl simple) in *.
+    assert (Hcur : forall cur a b fp0, fp0 = fp -> logp allow m15 cur ->
+              logp allow m15 (PMainFinalizer (if negb a && negb b then PLabelsJoin (PStepFixP (get_duration s) cur) fp0 PTimeSeriesInit false
+                                               else PStepFixP (get_duration s) cur) true fin)).
+    { intros cur a b fp0 -> Hc. constructor. destruct (negb a && negb b); repeat constructor; assumption. }
+    destruct (analyze_m15 s) eqn:Ea.
+    - destruct (plan_m15 fp s) as [[p0 wl]|] eqn:Ep; cbn [bind]; [|discriminate].
+      intros [= <-]. apply (Hcur p0 false wl fp eq_refl). apply (plan_m15_logp fp s p0 wl (Hm eq_refl) Hfp Ep).
+    - destruct (plan_spl ppl simple (renew_after ppl) 0 (labels_join_idx ppl simple 0) fp (PFingerprintFilter fp PMainInit)) as [spl|] eqn:E;
+        cbn [bind]; [|discriminate].
+      assert (Hspl : logp allow m15 spl).
+      { apply (plan_spl_logp _ _ _ _ _ _ _ _ Hfp) in E; [exact E|]. constructor; [exact Hfp | constructor]. }
+      destruct (function_order s) as [order lidx].
+      destruct (apply_mfns (is_some (labels_join_idx ppl simple 0)) (is_some lidx) order spl) as [p0|] eqn:Em; cbn [bind]; [|discriminate].
+      intros [= <-]. apply (Hcur p0 (is_some (labels_join_idx ppl simple 0)) (is_some lidx) fp eq_refl). apply (apply_mfns_logp _ _ _ _ _ Hspl Em).
+  Qed.
 End PLAN.
 
 (* ------------------------------------------------------------------ the theorems *)
-Lemma inv0 info c allow : inv info c allow pst0.
-Proof. intros w0 H0. discriminate H0. Qed.
+Lemma inv0 info allow W : inv info allow W pst0.
+Proof. split; intros w0 H0; discriminate H0. Qed.
+
+Lemma from_good info W allow q (b : bool) :
+  good (Q info W allow) q ->
+  Forall (fun sc => scan_bounded info W sc \/ (allow = true /\ fp_restricted sc)) (scans q).
+Proof. intros G. unfold good in G. eapply Forall_impl; [|exact G]. intros sc [_ H]. exact H. Qed.
 
 Theorem log_scans_confined info sel fin c p q st' p' :
   ctx_tables info c -> plan_log sel fin = Some p -> process p c pst0 = Some (q, st', p') ->
   Forall (fun sc => scan_bounded info (win c) sc \/ fp_restricted sc) (scans q).
 Proof.
-  intros Ht Hp Hq. pose proof (plan_log_logp true sel fin p (or_introl eq_refl) Hp) as Hl.
-  destruct (process_good info c true Ht p Hl pst0 q st' p' (inv0 info c true) Hq) as [G _].
-  unfold good in G. eapply Forall_impl; [|exact G].
-  intros sc [_ [H|[_ H]]]; [left | right]; exact H.
+  intros Ht Hp Hq. pose proof (plan_log_logp true false sel fin p (or_introl eq_refl) Hp) as Hl.
+  destruct (process_good info c true false (win c) Ht (win_ok_win c) p Hl pst0 q st' p' (inv0 _ _ _) Hq) as [G _].
+  apply (from_good _ _ _ _ true) in G. eapply Forall_impl; [|exact G].
+  intros sc [H|[_ H]]; [left | right]; exact H.
 Qed.
 
 Theorem log_scans_bounded info sel fin c p q st' p' :
   ctx_tables info c -> no_slf sel = true -> plan_log sel fin = Some p -> process p c pst0 = Some (q, st', p') ->
   Forall (scan_bounded info (win c)) (scans q).
 Proof.
-  intros Ht Hg Hp Hq. pose proof (plan_log_logp false sel fin p (or_intror Hg) Hp) as Hl.
-  destruct (process_good info c false Ht p Hl pst0 q st' p' (inv0 info c false) Hq) as [G _].
-  unfold good in G. eapply Forall_impl; [|exact G].
-  intros sc [_ [H|[H _]]]; [exact H | discriminate H].
+  intros Ht Hg Hp Hq. pose proof (plan_log_logp false false sel fin p (or_intror Hg) Hp) as Hl.
+  destruct (process_good info c false false (win c) Ht (win_ok_win c) p Hl pst0 q st' p' (inv0 _ _ _) Hq) as [G _].
+  apply (from_good _ _ _ _ true) in G. eapply Forall_impl; [|exact G].
+  intros sc [H|[H _]]; [exact H | discriminate H].
+Qed.
+
+(* metric scripts: judged against the context window widened below to the 15 s storage boundary (win15);
+   a plan without the roll-up shortcut is judged against the context window itself *)
+Theorem metric_scans_confined info s fin c p q st' p' :
+  ctx_tables info c -> (0 <= c_from_ns c)%Z -> (0 <= c_to_ns c)%Z ->
+  plan_metric s fin = Some p -> process p c pst0 = Some (q, st', p') ->
+  Forall (fun sc => scan_bounded info (win15 c) sc \/ fp_restricted sc) (scans q).
+Proof.
+  intros Ht Hf Hto Hp Hq. pose proof (plan_metric_logp true true s fin p (fun _ => eq_refl) (or_introl eq_refl) Hp) as Hl.
+  destruct (process_good info c true true (win15 c) Ht (win_ok_win15 c Hf Hto) p Hl pst0 q st' p' (inv0 _ _ _) Hq) as [G _].
+  apply (from_good _ _ _ _ true) in G. eapply Forall_impl; [|exact G].
+  intros sc [H|[_ H]]; [left | right]; exact H.
+Qed.
+
+Theorem metric_scans_bounded info s fin c p q st' p' :
+  ctx_tables info c -> (0 <= c_from_ns c)%Z -> (0 <= c_to_ns c)%Z -> no_slf (stream_selector s) = true ->
+  plan_metric s fin = Some p -> process p c pst0 = Some (q, st', p') ->
+  Forall (scan_bounded info (win15 c)) (scans q).
+Proof.
+  intros Ht Hf Hto Hg Hp Hq. pose proof (plan_metric_logp false true s fin p (fun _ => eq_refl) (or_intror Hg) Hp) as Hl.
+  destruct (process_good info c false true (win15 c) Ht (win_ok_win15 c Hf Hto) p Hl pst0 q st' p' (inv0 _ _ _) Hq) as [G _].
+  apply (from_good _ _ _ _ true) in G. eapply Forall_impl; [|exact G].
+  intros sc [H|[H _]]; [exact H | discriminate H].
+Qed.
+
+Theorem metric_scans_bounded_raw info s fin c p q st' p' :
+  ctx_tables info c -> analyze_m15 s = false -> no_slf (stream_selector s) = true ->
+  plan_metric s fin = Some p -> process p c pst0 = Some (q, st', p') ->
+  Forall (scan_bounded info (win c)) (scans q).
+Proof.
+  intros Ht Ha Hg Hp Hq.
+  pose proof (plan_metric_logp false false s fin p (fun H => eq_trans (eq_sym Ha) H) (or_intror Hg) Hp) as Hl.
+  destruct (process_good info c false false (win c) Ht (win_ok_win c) p Hl pst0 q st' p' (inv0 _ _ _) Hq) as [G _].
+  apply (from_good _ _ _ _ true) in G. eapply Forall_impl; [|exact G].
+  intros sc [H|[H _]]; [exact H | discriminate H].
 Qed.
 
 (* ------------------------------------------------------------------ witnesses *)
@@ -1011,4 +1318,26 @@ Lemma plain_query_guard :
   no_slf plain_query = true /\ plan_log plain_query true = Some plain_plan /\
   process plain_plan cluster_ctx pst0 = plain_result /\
   match plain_result with Some (q, _, _) => Nat.leb 3 (List.length (scans q)) | None => false end = true.
+Proof. repeat split; vm_compute; reflexivity. Qed.
+
+(* sum by (a) (rate({a="b"}[5m])) : planned on the 15-second roll-up table *)
+Definition lra_rate (ppl : list stage) : lra :=
+  {| lra_f := FRate; lra_prefix := None; lra_sel := {| sel_matchers := [m_ab]; sel_pipeline := ppl |};
+     lra_dur_ns := 300000000000; lra_suffix := None; lra_cmp := None |}.
+Definition m15_query : script :=
+  SAgg {| agg_f := ASum; agg_prefix := Some {| bw_by := true; bw_labels := ["a"] |}; agg_lra := lra_rate [];
+          agg_suffix := None; agg_cmp := None |}.
+(* rate({a="b"} |= "x" [5m]) : planned on samples *)
+Definition raw_query : script := SLra (lra_rate [PLineFilter LFContains "x" None]).
+Definition m15_plan : planner := Eval vm_compute in match plan_metric m15_query true with Some p => p | None => PMainInit end.
+Definition m15_result := Eval vm_compute in process m15_plan cluster_ctx pst0.
+Definition raw_plan : planner := Eval vm_compute in match plan_metric raw_query true with Some p => p | None => PMainInit end.
+Definition raw_result := Eval vm_compute in process raw_plan std_ctx pst0.
+Lemma metric_guards :
+  (analyze_m15 m15_query = true /\ no_slf (stream_selector m15_query) = true /\ plan_metric m15_query true = Some m15_plan /\
+   process m15_plan cluster_ctx pst0 = m15_result /\
+   match m15_result with Some (q, _, _) => Nat.leb 3 (List.length (scans q)) | None => false end = true) /\
+  (analyze_m15 raw_query = false /\ no_slf (stream_selector raw_query) = true /\ plan_metric raw_query true = Some raw_plan /\
+   process raw_plan std_ctx pst0 = raw_result /\
+   match raw_result with Some (q, _, _) => Nat.leb 3 (List.length (scans q)) | None => false end = true).
 Proof. repeat split; vm_compute; reflexivity. Qed.
